@@ -371,15 +371,36 @@ def env_has_duplicate_names(e):
     return False
 
 
+def env_cannot_work(e):
+    """definitions that can never encode or decode anything sensible (codec.py may refuse them at construction): an integer
+    multiplier of 0, a field length below 1 octet, a spare whose filler is not exactly one octet, a spare bit field of
+    no width"""
+    for f in e.get('fs', []):
+        if f['k'] == 'int' and f.get('mult', 1) == 0:
+            return True
+        if f['k'] in ('int',) and f.get('len', 1) is not None and f.get('len', 1) < 1:
+            return True
+        if f['k'] == 'spare' and len(f.get('filler', b'\0')) != 1:
+            return True
+        if f['k'] == 'bits' and any((b[0] == 's' and b[1] < 1) or (b[0] == 'b' and b[2] < 1) for b in f['fs']):
+            return True
+        ld = f.get('ld')
+        if ld and ld[0] == 'x' and isinstance(ld[1], int) and ld[1] < 0:
+            return True
+        if f['k'] in ('env', 'seq') and env_cannot_work(f):
+            return True
+    return False
+
+
 def request_has_duplicate_names(req):
     tok = req.split()
     try:
         if tok[0] in ("codec.dec", "codec.enc"):
             e, _ = cd.parse_env(tok, 1)
-            return env_has_duplicate_names(e)
+            return env_has_duplicate_names(e) or env_cannot_work(e)
         if tok[0] in ("codec.fdec", "codec.fenc"):
             f, _ = cd.parse_field(tok, 1)
-            return env_has_duplicate_names({'fs': [f]})
+            return env_has_duplicate_names({'fs': [f]}) or env_cannot_work({'fs': [f]})
     except (IndexError, ValueError, KeyError):
         pass
     return False
